@@ -96,6 +96,29 @@ def random_schedule(rnd, n):
     return steps
 
 
+def program_schedules(rnd, n_ticks, variant):
+    """Start + n ticks with the input trajectory `traj`; variant decides what else happens"""
+    from .gen import programs
+    traj = rnd.choice(programs.trajectories(n_ticks, rnd))
+    steps = [{"req": [{"k": "control", "name": "Start"}], "in": {"In": traj[0]}}]
+    for k in range(1, n_ticks):
+        req = []
+        r = rnd.random()
+        if variant == "pausehold" and r < 0.12:
+            req.append({"k": "control", "name": rnd.choice(["Pause", "Unpause", "Hold", "Unhold"])})
+        elif variant == "cancelforce" and r < 0.2:
+            req.append({"k": rnd.choice(["cancel", "force", "force"]), "item": rnd.randint(1, 10)})
+        elif variant == "inject" and r < 0.1:
+            req.append({"k": "inject", "text": rnd.choice(SNIPPETS[:7])})
+        elif variant == "edit" and r < 0.12:
+            req.append({"k": "editop", "op": rnd.choice(["append", "append", "change-last", "change-first", "insert-blank"]),
+                        "text": rnd.choice(["Mark: ed", "Short", "Wait: 0.2s", "Set1: 9"])})
+        elif variant == "stoprestart" and r < 0.06:
+            req.append({"k": "control", "name": rnd.choice(["Stop", "Restart", "Start"])})
+        steps.append({"req": req, "in": {"In": traj[k]}})
+    return steps
+
+
 def build(ctx: core.Ctx):
     rnd = random.Random(ctx.seed)
     runs = []
@@ -106,6 +129,13 @@ def build(ctx: core.Ctx):
     for i in range(nrnd):
         method = rnd.choice(METHOD_POOL)
         runs.append(_run(f"rnd-{i}", "rnd", method, random_schedule(rnd, rnd.randint(15, 45))))
+    from .gen import programs
+    progs = programs.CURATED * (2 if ctx.quick else 10) + programs.enumerated(ctx.quick, ctx.seed)
+    variants = ["plain", "plain", "pausehold", "cancelforce", "inject", "edit", "stoprestart"]
+    for i, method in enumerate(progs):
+        for j in range(1 if ctx.quick else 3):
+            variant = variants[(i + j) % len(variants)]
+            runs.append(dict(_run(f"prog-{i}-{j}", "prog", method, program_schedules(rnd, 40, variant)), variant=variant))
     return {"runs": runs, "design": {"RunState": design}}
 
 
